@@ -556,7 +556,7 @@ LAWS = ["LawLastWins", "LawAppendExact", "LawInheritIdentity", "LawOverride", "L
 def run_models(ctx):
     def one(m):
         name, cfg = m
-        r = vlib.run_tlc(ctx, "MCChecks", cfg, workers=4 if name in ("sel", "tree") else 1, timeout=3000)
+        r = vlib.run_tlc(ctx, "MCChecks", cfg, workers=4 if name in ("sel", "tree") else 2, timeout=3000)
         vlib.tlc_require_ok(r, "Checks laws (%s)" % cfg)
         if len(r.cases) != r.distinct:
             raise Inconclusive("TLC emitted %d cases for %d states (%s)" % (len(r.cases), r.distinct, cfg))
